@@ -139,6 +139,13 @@ def generate(tier, seed, work, stats):
         extra.append(dict(kind="fcfg", two=True, family="directed-two-features",
                           prods=[[m.get(h, h), list(ha), [m.get(x, x) for x in b], [list(a) if not isinstance(a, str) else ["-", "-"] for a in ba]]
                                  for h, ha, b, ba in tmpl2]))
+    # two productions with the same head, body and constants that differ only in which positions share a variable
+    lex = [[v, [c, "-"], [t], ["-", "-"]] for v in ("A", "B", "X") for c, t in (("p", "a"), ("q", "b"))]
+    for pat1, pat2 in ((("x", "x", "y"), ("x", "y", "x")), (("x", "y", "y"), ("x", "x", "y")), (("x", "y", "x"), ("y", "x", "x"))):
+        twins = [["S", N, ["A", "B", "X"], [[a, "-"] for a in pat]] for pat in (pat1, pat2)]
+        for order in (0, 1):
+            extra.append(dict(kind="fcfg", two=True, family="directed-sharing-twins",
+                              prods=[[h, list(ha), b, [list(a) for a in ba]] for h, ha, b, ba in (twins[::-1] if order else twins) + lex]))
     vals = ["-", "-", "p", "q", "x", "x", "y"]
     for prods in c08.random_grammars(500 if tier == "quick" else 6000, seed + 24, maxp=6, maxb=2):
         prods = [p for p in prods if all(x in ("S", "A", "B", "a", "b") for x in [p[0]] + p[1])]
@@ -211,12 +218,38 @@ def project_fs(root):
     return {"paths": sorted(paths), "atoms": sorted(atoms), "same": sorted(same)}
 
 
+def accessor_mismatches(root):
+    """Every path of the structure read through get_feature_by_path: it must exist and lead to the node (value) the
+    traversal of content / get_dereferenced() finds there."""
+    bad = []
+
+    def walk(node, path, depth):
+        d = node.get_dereferenced()
+        if path:
+            try:
+                got = root.get_feature_by_path(list(path)).get_dereferenced()
+                if got is not d or got.value != d.value:
+                    bad.append(list(path))
+            except Exception as e:  # pylint: disable=broad-except
+                bad.append(list(path) + ["!" + type(e).__name__])
+        if depth > 6:
+            return
+        for feat, sub in d.content.items():
+            walk(sub, path + [feat], depth + 1)
+    walk(root, [], 0)
+    return bad
+
+
 def do_unify(x, y):
     from harness import guard
     r = guard.call(x.unify, y)
     if r[0] == "ok":
         try:
-            return "ok", project_fs(x)
+            pr = project_fs(x)
+            bad = accessor_mismatches(x)
+            if bad:
+                pr = dict(pr, accbad=bad[:5])
+            return "ok", pr
         except RecursionError:
             return "cyclic", None
     return (r[1] if r[0] == "exc" else "Timeout"), None
